@@ -10,7 +10,8 @@ PROPERTY = "C19"
 LEVEL = "model_checking"
 FUNCTIONS = [("pandapower.estimation.algorithm.matrix_base", "BaseAlgebra.create_hx"), ("pandapower.estimation.algorithm.matrix_base", "BaseAlgebra.create_rx"),
              ("pandapower.estimation.algorithm.matrix_base", "BaseAlgebra._merge_mask"), ("pandapower.pypower.pfsoln", "pfsoln"),
-             ("pandapower.estimation.state_estimation", "estimate")]
+             ("pandapower.estimation.state_estimation", "estimate"),
+             ("pandapower.estimation.ppc_conversion", "_add_zero_injection"), ("pandapower.estimation.ppc_conversion", "_get_branch_map")]
 STUBS = ["the WLS iteration is not run: at the true state x the estimator's residual is z - h(x); h is executed for real and compared with what the power "
          "flow result code (pfsoln) reports for the same voltages - noise-free measurements taken from power flow results therefore give a zero residual",
          "the eppci container is a stub holding V (polar, symbolic), masks selecting every measurement type, and the Y matrices of the real makeYbus"]
@@ -129,10 +130,41 @@ def make_zero_injection(option):
                 ctx.true(f"unflagged_bus_gets_no_virtual_measurement/bus{b}", bool(np.isnan(float(out[b, P]))) and bool(np.isnan(float(out[b, Q]))))
     return fn
 
+def make_branch_map():
+    """branch measurements are written to the row of the measured element in the internal (in-service only) branch table: whichever branches
+    are out of service (each in-service flag is a symbolic boolean: one path per feasible combination), the row number returned for an
+    element must be the position of that element among the active rows - otherwise an exact measurement is attributed to another branch"""
+    def fn(ctx):
+        pc = ctx.load("pandapower.estimation.ppc_conversion")
+        import pandas as pd
+        blocks = {"line": (0, 3), "trafo": (3, 5), "impedance": (5, 6)}
+        index = {"line": [4, 0, 7], "trafo": [2, 9], "impedance": [1]}
+        flags = [ctx.var(f"ppc_branch_row{r}_in_service", 0., 1.) >= 0.5 for r in range(6)]
+        mask = np.array([bool(f) for f in flags])         # forks
+
+        class Net:
+            _pd2ppc_lookups = {"branch": dict(blocks)}
+            line = pd.DataFrame(index=index["line"])
+            trafo = pd.DataFrame(index=index["trafo"])
+            impedance = pd.DataFrame(index=index["impedance"])
+        active_rows = [r for r in range(6) if mask[r]]
+        for et, (start, end) in blocks.items():
+            m = pc._get_branch_map(Net, mask, et)
+            for pos, idx in enumerate(index[et]):
+                row = start + pos
+                if mask[row]:
+                    ctx.true(f"{et}{idx}_is_mapped", idx in m.index)
+                    if idx in m.index:
+                        ctx.true(f"{et}{idx}_maps_to_its_own_row_of_the_internal_branch_table", int(m.loc[idx]) == active_rows.index(row))
+                else:
+                    ctx.true(f"{et}{idx}_out_of_service_is_not_mapped", idx not in m.index)
+    return fn
+
 
 def instances(tier):
     LAYOUT[0] = [(0, 1)] if tier == "quick" else [(0, 1), (1, 2)]
-    zi = [Inst("zero_injection_zero_pwr_bus", make_zero_injection("zero_pwr_bus"), nvars=10, samples=4, max_paths=500, meta=dict(part="zero injection buses", option="zero_pwr_bus"))]
+    zi = [Inst("zero_injection_zero_pwr_bus", make_zero_injection("zero_pwr_bus"), nvars=10, samples=4, max_paths=500, meta=dict(part="zero injection buses", option="zero_pwr_bus")),
+          Inst("branch_measurement_rows", make_branch_map(), nvars=8, samples=4, max_paths=200, meta=dict(part="measurement mapping", branches="3 lines, 2 trafos, 1 impedance, any subset out of service"))]
     if tier == "quick":
         return zi + [Inst("hx_equals_power_flow_results", make_hx(), nvars=40, samples=2, timeout_ms=120000, max_paths=200, meta=dict(part="h(x)", branches=1))]
     # 2 branches: the same execution, the claims split over four instances so that they are decided in parallel
